@@ -236,7 +236,8 @@ class RangeDomain:
     # ------------------------------------------------------------ assertions
     def on_assert(self, ex, fr, bb, term, cond):
         key = (fr.body.rec["path"], bb)
-        s = self.sites.setdefault(key, {"kind": term["kind"], "proved": 0, "unknown": 0, "fails": 0, "detail": None, "line": term["span"].get("line"), "file": term["span"].get("file")})
+        s0 = self.sites.setdefault(key, {})
+        s = s0.setdefault(getattr(self, "root", None), {"kind": term["kind"], "proved": 0, "unknown": 0, "fails": 0, "detail": None, "line": term["span"].get("line"), "file": term["span"].get("file")})
         if isinstance(cond, (bool, int)) and not isinstance(cond, Rng):
             if bool(cond) == bool(term["expected"]):
                 s["proved"] += 1
@@ -346,10 +347,6 @@ class RangeDomain:
         return TOP
 
 
-INLINE = ("crate::arith::MulBuffer::<N>::get", "crate::arith::MulBuffer::<N>::get_mut", "<crate::arith::MulBuffer<N> as core::ops::Index<usize>>::index",
-          "<crate::arith::MulBuffer<N> as core::ops::IndexMut<usize>>::index_mut", "crate::pairings::bit")
-
-
 def profile_sites(Fd, Fr):
     """Assertion terminators / debug_assert panics present in the dev MIR and absent from the release MIR."""
     out = []
@@ -397,51 +394,99 @@ def rule_profile_diff(prop, ctx_repo_dev, repo_rel, ls_factory):
     asserts = [s for s in sites if s[0] == "assert"]
     dbg = [s for s in sites if s[0] == "debug_assert"]
     R.note("dev-only sites: %d overflow-class assertions in %d functions, %d debug_assert! panics" % (len(asserts), len({s[1] for s in asserts}), len(dbg)))
-    # ---- overflow assertions: abstract execution of each function with ⊤ inputs; context-dependent callees inlined into their callers
+    # ---- overflow assertions: abstract execution of each function with ⊤ inputs. A function that cannot be discharged on its
+    # own and cannot be called from outside the crate is analysed again in the context of each of its (transitive) callers.
     dom = RangeDomain(F)
     fns = sorted({s[1] for s in asserts})
-    callers_needed = set()
     done = set()
-    for p in fns:
-        if p in INLINE:
-            continue
+    from .roles import int_helper_paths
+    int_fns = int_helper_paths(F)       # integer-in / integer-out helpers are always analysed inside their callers as well
+
+    def own_root(p):
         b = F.bodies[p]
         if b.rec["kind"] == "Closure":
-            # analysed in the context of the function that builds the iterator / fold around it
             parent = p.split("::{closure")[0]
-            if parent in F.bodies and parent not in done:
-                done.add(parent)
-                run_top(F, dom, F.bodies[parent])
-            continue
-        if p not in done:
-            done.add(p)
-            run_top(F, dom, b)
-    # callers of the inlined helpers
+            return parent if parent in F.bodies else p
+        return p
+    for p in fns:
+        r = own_root(p)
+        if r not in done:
+            done.add(r)
+            run_top(F, dom, F.bodies[r], lambda d: d in int_fns)
+
+    def standalone_ok(p, bb):
+        st = (dom.sites.get((p, bb)) or {}).get(own_root(p))
+        return st is not None and not st["fails"] and not st["unknown"]
+    callers = {}
     for b in F.fn_bodies():
-        if b.rec["path"] in INLINE or b.rec["path"] in fns:
-            continue
-        if any(((t.get("fn") or {}).get("res_def") or "") in INLINE for _, t in b.calls()):
-            run_top(F, dom, b)
+        for _, t in b.calls():
+            d = (t.get("fn") or {}).get("res_def")
+            if d in F.bodies:
+                callers.setdefault(d, set()).add(own_root(b.rec["path"]))
+    deferred = set()
+
+    def contexts(p, bb):
+        """the analysis results that count for a site: its own function analysed alone, or — for a deferred helper — every
+        non-deferred function it was analysed inside"""
+        byroot = dom.sites.get((p, bb)) or {}
+        r = own_root(p)
+        if r not in deferred:
+            return {r: byroot[r]} if r in byroot else {}
+        return {root: st for root, st in byroot.items() if root not in deferred}
+
+    def can_defer(r):
+        return not F.is_public_api(r) and bool(callers.get(r)) and F.bodies[r].rec["kind"] != "Closure"
+    roots = set()
+    for _round in range(8):
+        changed = False
+        for kind, p, bb, what in asserts:
+            for root, st in contexts(p, bb).items():
+                if (st["fails"] or st["unknown"]) and root not in deferred and can_defer(root):
+                    deferred.add(root)
+                    changed = True
+        if not changed:
+            break
+        roots = set()
+        for p in deferred:
+            todo, seen = list(callers.get(p, ())), set()
+            while todo:
+                c = todo.pop()
+                if c in seen:
+                    continue
+                seen.add(c)
+                if c in deferred:
+                    todo.extend(callers.get(c, ()))
+                else:
+                    roots.add(c)
+        for c in sorted(roots):
+            for key, byroot in dom.sites.items():
+                byroot.pop(c, None)
+            run_top(F, dom, F.bodies[c], lambda d: d in deferred or d in int_fns)
+    if deferred:
+        R.note("context-dependent helpers analysed inside their callers: %s (callers: %d)" % (sorted(deferred), len(roots)))
     lscache = {}
     for kind, p, bb, what in asserts:
         R.instance()
-        s = dom.sites.get((p, bb))
         b = F.bodies[p]
         key = "%s:overflow:%s#%s@%s" % (prop, p, what, ordinal(b, bb, what))
         if key in ASSUMED_OVERFLOW:
             R.assume(key, ASSUMED_OVERFLOW[key])
             R.ok()
             continue
-        if s is None:
+        sts = list(contexts(p, bb).values())
+        if not sts:
             R.violation(key, "fail-closed: dev-only %s assertion in %s was never reached by the abstract execution (cannot be discharged)" % (what, p), loc_of(b, bb), p)
-        elif s["fails"]:
+            continue
+        s = {"fails": sum(x["fails"] for x in sts), "unknown": sum(x["unknown"] for x in sts), "proved": sum(x["proved"] for x in sts),
+             "detail": next((x["detail"] for x in sts if x["detail"]), None)}
+        if s["fails"]:
             R.violation(key, "%s in %s fails in debug builds and wraps silently in release: %s" % (what, p, s["detail"]), loc_of(b, bb), p)
         elif s["unknown"] and lensim_discharges(repo, ls_factory, lscache, b, bb):
             R.ok(sample={"site": loc_of(b, bb), "fn": p, "kind": what, "decided_by": "value-set analysis over the complete length partition"})
         elif s["unknown"]:
             R.violation(key, "dev-only %s assertion in %s is not bounded by the interval analysis (%s): debug and release may differ" % (what, p, s["detail"]), loc_of(b, bb), p)
         else:
-            R.ok(sample={"site": loc_of(b, bb), "fn": p, "kind": what, "visits_all_safe": s["proved"]} if R.discharged % 12 == 0 else None)
+            R.ok(sample={"site": loc_of(b, bb), "fn": p, "kind": what, "visits_all_safe": s["proved"], "context": "callers" if own_root(p) in deferred else "own"} if R.discharged % 12 == 0 else None)
     # ---- debug_assert! panics
     ls = ls_factory(repo)
     from .convert import explore
@@ -503,8 +548,10 @@ def ordinal(body, bb, kind):
     return n
 
 
-def run_top(F, dom, b):
-    ex = AbsExec(F, dom, inline=lambda d: d in INLINE, max_steps=600000, max_paths=20000)
+def run_top(F, dom, b, inline):
+    dom.root = b.rec["path"]
+    dom._abstract_heads = set()      # loop abstractions are decided per analysed root
+    ex = AbsExec(F, dom, inline=inline, max_steps=600000, max_paths=20000)
     args = []
     holders = []
     for i, ty in enumerate(b.rec.get("inputs") or []):
